@@ -18,6 +18,8 @@ CONSTANTS
   TxnBeforeGate = TRUE
   NestedCloseClearsMark = FALSE
   ReadNotCounted = FALSE
+  SqueezedFits = TRUE
+  ReopenClampsMap = FALSE
   BatchMax = 1
   MaxOps = 22
   WithReads = FALSE
